@@ -51,6 +51,9 @@ type Case struct {
 	Seed   int64    `json:"seed"`
 	Skip   int      `json:"skip"` // number of Fill calls made (and discarded) after seeding, before the observed one
 	Argv   []string `json:"argv,omitempty"`
+	Conc   string   `json:"conc,omitempty"`     // concurrent stage: configuration "kind:vpn"
+	ConcN  int      `json:"conc_n,omitempty"`   // concurrent stage: Fill calls made on the shared filler
+	ConcB  int      `json:"conc_bad,omitempty"` // concurrent stage: frames the pre-filter rejected
 	// observation
 	Err   string `json:"err"`
 	Frame string `json:"frame"`
@@ -268,6 +271,9 @@ func main() {
 	capTimeout := flag.Duration("timeout", 3*time.Second, "capture mode: stop after this time")
 	capTun := flag.String("tun", "", "capture mode: attach to this tun device and record the packets sent through it")
 	capSrc := flag.String("srcmac", "", "capture mode: keep only frames with this Ethernet source (hex)")
+	conc := flag.Int("concurrent", 0, "concurrent stage only: Fill calls per shared filler")
+	workers := flag.Int("workers", 8, "concurrent stage: goroutines sharing one filler")
+	concOnly := flag.String("conc-only", "", "concurrent stage: only this configuration (kind:vpn)")
 	hunt := flag.Int("hunt", 0, "failing-input search: extra Fill calls per builder whose spoofed fields are range-checked")
 	flag.Parse()
 	w := hlib.NewOut(*out)
@@ -297,6 +303,11 @@ func main() {
 		return
 	}
 	g := &gen{r: hlib.NewRand(*seed), w: w, maxpl: *maxpl, huge: *huge, maxsweep: 1472}
+	if *conc > 0 {
+		g.concurrentStage(*conc, *workers, *concOnly)
+		fmt.Fprintf(os.Stderr, "c05: concurrent stage, %d cases emitted\n", w.N)
+		return
+	}
 	g.all(*n)
 	if *hunt > 0 {
 		g.hunt(*hunt)
